@@ -31,10 +31,8 @@ theorem output_wellformed (u : UTab) (file : List Char) (pretty : Bool) (t : Byt
     (h : toJson u file pretty (parseDoc t) = some out) : ∃ j, Spec.readJson out = some j :=
   KlogV.toJson_wellformed u file pretty t out h
 
-/-- lookup of a field in an object view -/
-def field (k : String) : JVal → Option JVal
-  | .obj kvs => (kvs.find? (fun kv => kv.1 == k.toList)).map (·.2)
-  | _ => none
+/-- lookup of a field in an object view (definition moved to KlogV/Lemmas/JsonRoundtrip.lean) -/
+abbrev field (k : String) : JVal → Option JVal := KlogV.field k
 
 /-- Faithfulness of a record object: date, summary, should-total, totals and entries are those
 of the record, in order; total_mins is the sum of the entries' total_mins; diff_mins is
